@@ -672,7 +672,9 @@ static void run_graph(uint64_t seed, const std::string& mode) {
     std::vector<std::thread> ext_threads;
     for (auto& p : exts)
       if (p.how == 2) {
-        int n = (int)rng.below(24);
+        // a requested target is emitted early (while Graph::run is still binding / activating), other data any time
+        bool is_target = std::find(targets.begin(), targets.end(), p.d) != targets.end();
+        int n = is_target ? (int)rng.below(8) : (int)rng.below(24);
         ext_threads.emplace_back([&b, p, n] {
           yields(n);
           publish(b.data[p.d], p.d, p.v, "external");
